@@ -402,6 +402,11 @@ class WebSocketApp:
                 else:
                     self._callback(self.on_open)
 
+                if not self.keep_running or not self.sock:
+                    # close() was called from on_open / on_reconnect
+                    teardown()
+                    return
+
                 dispatcher.read(self.sock.sock, read, check)
             except (
                 WebSocketConnectionClosedException,
